@@ -11,6 +11,7 @@ import (
 	"encoding/binary"
 	"encoding/json"
 	"fmt"
+	"io"
 	"math/rand"
 	"os"
 	"path/filepath"
@@ -172,6 +173,43 @@ type w3Harness struct {
 	twice   map[string]bool // segment files the recorder created more than once (the later creation truncates the earlier file)
 	done    []string
 	ntpBase time.Time
+
+	// write journal of the record directory (through the hook in package os): every write
+	// of every segment file in program order, with its offset
+	journal  map[string][]w3JOp // base name -> writes since the file was (last) created
+	lastFile map[string]*os.File
+	writeN   int64
+	faults   int64
+}
+
+type w3JOp struct {
+	off  int64
+	data []byte
+}
+
+// writeHook is installed in package os while the recorder runs.
+func (h *w3Harness) writeHook(f *os.File, b []byte, off int64) (int, error, bool) {
+	name := f.Name()
+	if !strings.HasPrefix(name, h.dir+string(os.PathSeparator)) {
+		return 0, nil, false
+	}
+	base := filepath.Base(name)
+	if h.journal == nil {
+		h.journal = map[string][]w3JOp{}
+		h.lastFile = map[string]*os.File{}
+	}
+	if h.lastFile[base] != f {
+		// a new file object for this name: os.Create, which truncates
+		h.lastFile[base] = f
+		h.journal[base] = nil
+	}
+	pos := off
+	if pos < 0 {
+		pos, _ = f.Seek(0, io.SeekCurrent)
+	}
+	h.writeN++
+	h.journal[base] = append(h.journal[base], w3JOp{off: pos, data: append([]byte(nil), b...)})
+	return 0, nil, false
 }
 
 func (h *w3Harness) recordPathFormat(root string) string {
@@ -338,7 +376,10 @@ func (w *w3World) Run(t *testing.T, sc *simrt.Scenario, cfg simrt.Config) simrt.
 		defer os.RemoveAll(dir)
 		h.dir = filepath.Join(dir, "rec")
 		os.MkdirAll(h.dir, 0o755)
-		if !h.record() {
+		os.SimSetWriteHook(h.writeHook)
+		ok := h.record()
+		os.SimSetWriteHook(nil)
+		if !ok {
 			return
 		}
 		an.scratch = filepath.Join(dir, "states")
@@ -351,6 +392,7 @@ func (w *w3World) Run(t *testing.T, sc *simrt.Scenario, cfg simrt.Config) simrt.
 	sort.Strings(an.abstract)
 	out.Abstract = []string{fmt.Sprintf("v%v a%v seg%d files%d", b.Video, b.Audio, b.SegmentMs, an.files), fmt.Sprintf("%s-%d-%d", res.Hash, an.states, an.queries)}
 	out.Extra = map[string]any{"files": an.files, "crash_states": an.states, "mutations": an.mutations, "queries": an.queries, "parts": an.parts,
-		"samples_written": len(h.written), "list_failures_on_torn": an.listFailTorn}
+		"samples_written": len(h.written), "list_failures_on_torn": an.listFailTorn,
+		"journal_writes": an.journalWrites, "journal_writes_in_place": an.journalInPlace, "write_faults_injected": h.faults}
 	return out
 }
